@@ -1,6 +1,7 @@
 package main
 
 import (
+	"github.com/z7zmey/php-parser/verifmc/lexm"
 	"strconv"
 	"encoding/json"
 	"bytes"
@@ -34,7 +35,9 @@ var c07Contexts = []c07ctx{
 // way back to the statement level, so that the last of two or more well-formed statements that follow is
 // in the tree ("parsing continues after it")
 var c07Closed = map[string]bool{"1 + ;": true, "$a = ;": true, "=> 1 ;": true, "1 1 ;": true, "new ;": true, "echo , ;": true, "$a = = 1 ;": true, "$a -> ;": true,
-	"__halt_compiler ( ;": true, "__halt_compiler ;": true, "__halt_compiler ( ) x ;": true, "<<<A\nx\nA\n 1 ;": true, "\"a $b \" 1 ;": true}
+	"__halt_compiler ( ;": true, "__halt_compiler ;": true, "__halt_compiler ( ) x ;": true, "<<<A\nx\nA\n 1 ;": true, "\"a $b \" 1 ;": true,
+	// the offending token is itself one that switches the scanner's mode
+	"$x \"v $y\" ;": true, "$x \"v {$y}\" ;": true, "$x \"v ${y}\" ;": true, "$x \"v $y[0]\" ;": true, "$x `ls $y` ;": true, "$x <<<A\nv $y\nA\n ;": true, "foo ( $x \"v $y z\" ) ;": true, "$x -> -> b ;": true}
 
 // a lone closing bracket opens nothing, and yacc's recovery discards it as the offending token; a lone `}` is such a token
 // only where no scope is open (top level) — elsewhere it closes the context's own block
@@ -46,7 +49,7 @@ func c07IsClosed(m string, ctx c07ctx) bool {
 var c07ModeForms = []string{"\"{$a}\" ;", "\"${a}\" ;", "\"$a[0]\" ;", "\"$a->b\" ;", "\"{$a[\"{$b}\"]}\" ;", "`{$a}` ;", "<<<A\n{$a}\nA\n ;", "<<<A\n$a[0] ${b}\nA\n ;",
 	"$a -> b ;", "{ }", "{ { } }", "$f = function ( ) { \"{$a}\" ; } ;", "\"{${a}}\" ;", "\"${a[0]}\" ;"}
 
-var c07Menu = []string{"__halt_compiler ( ;", "__halt_compiler ;", "__halt_compiler ( ) x ;", "<<<A\nx\nA\n 1 ;", "\"a $b \" 1 ;", "1 + ;", "$a = ;", "foo ( ;", ")", "if ( ;", "class { }", "$a -> ;", "function ( ;", "]", "=> 1 ;", "1 1 ;", "$a [ ;", "new ;", "echo , ;", "$a = = 1 ;", "} }", "}"}
+var c07Menu = []string{"$x \"v $y\" ;", "$x \"v {$y}\" ;", "$x \"v ${y}\" ;", "$x \"v $y[0]\" ;", "$x `ls $y` ;", "$x <<<A\nv $y\nA\n ;", "foo ( $x \"v $y z\" ) ;", "$x -> -> b ;", "__halt_compiler ( ;", "__halt_compiler ;", "__halt_compiler ( ) x ;", "<<<A\nx\nA\n 1 ;", "\"a $b \" 1 ;", "1 + ;", "$a = ;", "foo ( ;", ")", "if ( ;", "class { }", "$a -> ;", "function ( ;", "]", "=> 1 ;", "1 1 ;", "$a [ ;", "new ;", "echo , ;", "$a = = 1 ;", "} }", "}"}
 
 // levelStmts: the statement list in which S1…Sk and M stand (innermost "Stmts" along the first statements).
 func levelStmts(root ast.Vertex, depth int) ([]ast.Vertex, bool) {
@@ -219,6 +222,58 @@ func c07One(c *core.Ctx, cs c07Case) {
 	}
 }
 
+// c07Garbage: unexpected characters x in gap g of a valid program.
+func c07Garbage(c *core.Ctx, f *corpus.Fam, it *corpus.Item, g int, x string) {
+	// the tokens of the source: what the scanner makes of the program without the unexpected characters, moved by the
+	// length of the insertion behind it
+	var sb strings.Builder
+	at, old := 0, 0
+	for j, p := range it.R.Pieces {
+		if j == g {
+			at, old = sb.Len(), len(p.Text)
+			sb.WriteString(x)
+			continue
+		}
+		sb.WriteString(p.Text)
+	}
+	intended := map[int]string{}
+	for _, t := range it.RealToks {
+		if t.Position == nil {
+			continue
+		}
+		off := t.Position.StartPos
+		if off >= at+old {
+			off += len(x) - old
+		}
+		intended[off] = string(t.Value)
+	}
+	cs := mkCase(sb.String(), f.V, "unexpected characters between two tokens: "+it.Why)
+	setBlock(&cs)
+	res := drive.Parse(cs.Src, f.V, true)
+	if !res.OK() {
+		c.Stat("crashed_or_hung(C01 domain)", 1)
+		return
+	}
+	if res.Root == nil || res.NErr() == 0 {
+		c.Stat("garbage_no_tree_or_no_error(not judged)", 1)
+		return
+	}
+	c.Stat("recovered", 1)
+	c.Stat("garbage_programs", 1)
+	c.NontrivialH(core.Hash(cs.Ver + string(cs.Src)))
+	c07Print(c, cs, res)
+	for _, tr := range astx.Tokens(res.Root) {
+		t := tr.Tok
+		if tr.Free || t == nil || len(t.Value) == 0 || t.Position == nil {
+			continue
+		}
+		if want, ok := intended[t.Position.StartPos]; !ok || want != string(t.Value) {
+			c.Report("tree returned despite errors holds text that is not a token of the source ("+astx.KindName(tr.Owner)+"."+tr.Field+")", mkWhat("token %q at %d in %q", t.Value, t.Position.StartPos, cs.Src), cs)
+			return
+		}
+	}
+}
+
 // c07Print: tokens of a tree returned despite errors — source text, at most once, in source order; the
 // printed bytes are their concatenation (plus the printer's own glue).
 func c07Print(c *core.Ctx, cs srcCase, res drive.Result) {
@@ -364,6 +419,25 @@ func c07Run(c *core.Ctx) {
 					cs := c07Case{srcCase: mkCase(src, f.V, "malformed statement after statements that use the scanner's mode stack, in "+ctx.name), Ctx: ci, Before: l, After: after, M: m}
 					c.Stat("mode_stack_lists", 1)
 					c07One(c, cs)
+				}
+			}
+		}
+		// bytes the scanner reports as unexpected characters (a warning, not a syntax error), alone and in runs, in every
+		// PHP-mode gap of every rule-level program, touching the next token, the previous one, or neither: the tokens of
+		// the tree that comes back must be tokens of the source — the lexemes the program was written down with
+		for _, it := range validItems(f, 1) {
+			if !it.AsIntended || it.R == nil {
+				continue
+			}
+			for _, g := range corpus.Gaps(it.R) {
+				if it.R.Pieces[g].Mode != "php" && it.R.Pieces[g].Mode != "" || it.R.Pieces[g].Gap != lexm.GapFree {
+					continue
+				}
+				for _, x := range []string{"\x04", "\x01\x02", "\x7f\x00\x1f", " \x04", "\x04 ", "\x04\n"} {
+					if !c.Next() {
+						continue
+					}
+					c07Garbage(c, f, it, g, x)
 				}
 			}
 		}
